@@ -425,6 +425,8 @@ class Array(AbstractValueWithQuantityObject, Generic[ValuesType]):
         else:
             # not numpy: create a new structure to hold the values
             result = []
+            # the resulting quantity does not depend on the values (needed if there are no values)
+            q, _ = operation_func(q1, q2, 1.0, 1.0)
             for v0, v1 in values_iteration:
                 q, v = operation_func(q1, q2, v0, v1)
                 result.append(v)
